@@ -61,6 +61,20 @@ CHECKS = {
              "logdet with (Auto,Auto), (LU,Auto), (Auto,Exact), (Arnoldi,Exact), (Cholesky,Auto), (Lanczos,Exact) and "
              "requires sign*exp(logabs) = det, a unit-modulus sign and logdet = logabs.",
         design="5/C07", technique="TLC exact determinant oracle over enumerated trees + spec-to-code replay"),
+    "C08": dict(
+        text="(a) TLC gives the exact matrix of every square tree; replay calls diag(A, k) for every offset with Exact "
+             "and the automatic default and trace(A): a structural rule may refuse but never return other values. "
+             "(b) The index arithmetic of the generic prober (identity chunks, shift, pad, trim) is transcribed in "
+             "spec/Prober.tla and model-checked for every alignment of the size against the block (small sizes and "
+             "block sizes exhaustively, the real block size 100 for n in 99..250); the real prober is run on "
+             "position-encoding operators for the same (n, k).",
+        design="5/C08", technique="TLC model of the prober index arithmetic + exact matrix oracle + replay"),
+    "C11": dict(
+        text="TLC decides exactly which enumerated trees are Hermitian positive definite (leading principal minors) "
+             "resp. non-singular and provides their exact matrix; replay requires cholesky(A) lower triangular with "
+             "L L^H equal to it, plu(A) = (permutation, lower, upper) with P L U equal to it, and factor-wise "
+             "(Kronecker / BlockDiag / Diagonal / scalar) structure of the returned operators.",
+        design="5/C11", technique="TLC exact definiteness/matrix oracle over enumerated trees + spec-to-code replay"),
     "C20": dict(
         text="TLC resolves every index form (ints, slices incl. negative/strided/empty, integer arrays, lists) with the "
              "transcribed Python slice.indices / negative-wrap semantics (PyIndex.tla) on every operator tree and "
